@@ -14,12 +14,13 @@ from .raggedutil import (ALL_DTYPES, INT_DTYPES, dtclass, cells, mk, seq_eq, sho
                          nonempty_variant, rows_class, vals_class, refine)
 
 PROPERTY = "C07"
-SCHEMES = ["distinct", "desc", "dups", "extreme"]
+SCHEMES = ["distinct", "desc", "dups", "extreme", "close"]
 OPS = ["cumsum-func", "cumsum-method", "acc-add", "acc-subtract", "acc-bitwise_xor", "sort", "unique", "unique-counts", "diff"]
 QUICK_DTYPES = ["bool", "int8", "int64", "uint8", "uint64", "float32", "float64"]
 RULE = ("exhaustive: every row-length vector (rows<=R, len<=L, incl. zero rows and empty rows in every position) x dtype x "
         "value scheme (distinct ascending | distinct descending | 3-letter alphabet with repeats, negatives and zero | "
-        "dtype extremes, negatives, for floats also magnitudes around 2**mantissa) x operation: np.cumsum(ra, axis=-1) "
+        "dtype extremes, negatives, for floats also magnitudes around 2**mantissa | neighbouring large values that differ by one unit "
+        "/ a few ulps) x operation: np.cumsum(ra, axis=-1) "
         "and ra.cumsum(axis=-1) (integer dtypes only), np.add/subtract/bitwise_xor.accumulate(ra, axis=-1) (dtypes "
         "numpy accepts), ra.sort(axis=-1), np.unique(ra, axis=-1[, return_counts=True]), np.diff(ra, n=n, axis=-1) for "
         "n = 0..L+1. non-trivial = the array has an empty row or zero rows, or a row of length 1, or n > 1")
